@@ -142,7 +142,7 @@ def check_sample(ctx, desc, out, keys, W, sizes, N, K, n0):
     ctx.require(all_(conds_nn), "non-negative", f"{desc}: negative entry in {out}")
     log = ctx.rng_log[n0:]
     ch = [c for c in log if c["fn"] == "choices"]
-    if any(c["fn"] not in ("choices", "randrange", "sample") for c in log) or len(ch) > 1:
+    if any(c["fn"] not in ("choices", "randrange", "sample", "choice") for c in log) or len(ch) > 1:
         ctx.note("undecided: the draw is not made by exactly one random.choices call (law / minimality not decided)")
         return
     ctx.require(len(ch) == 1, "weighted-draw", f"{desc}: no weighted draw was made for this sample (RNG calls: {[c['fn'] for c in log]})", sig="weighted-draw:none")
